@@ -292,3 +292,21 @@ def snap_params_to_knots(obj, param):
         if param[idx] is not None and helpers.find_multiplicity(param[idx], kv) > 0:
             param[idx] = min(kv, key=lambda k, p=param[idx]: abs(k - p))
     return param
+
+
+def swap_trim_coordinates(trim):
+    """ Swaps the coordinates of a trim curve.
+
+    The trim curves are defined on the parametric space of the surface; x- and y-coordinates correspond to the u- and
+    v-directions of the surface, respectively.
+
+    :param trim: trim curve (spline geometry, freeform geometry or a container of them)
+    :type trim: abstract.Geometry
+    """
+    if trim.type == "container":
+        for t in trim:
+            swap_trim_coordinates(t)
+    elif trim.type == "freeform":
+        trim.evaluate(points=[[pt[1], pt[0]] for pt in trim.evalpts])
+    else:
+        trim.ctrlpts = [[pt[1], pt[0]] for pt in trim.ctrlpts]
